@@ -3,6 +3,7 @@
 Require Import GM.model.Base GM.model.Util GM.model.UrlSpec GM.model.UtilI.
 Require Import GM.gen.Tables GM.proofs.TotalProofs GM.proofs.Concrete GM.proofs.UrlProofs.
 From Coq Require Import ZArith.
+Require Import GM.model.Reader GM.model.Html GM.model.HtmlI GM.model.HtmlSpec GM.proofs.HtmlConcrete.
 
 (* util.ToRune never panics for an in-range position (the CJK soft-break rule calls it with
    the last index of a non-empty text value) *)
@@ -18,3 +19,9 @@ Theorem C01_url_escape_terminates : forall v total f1 f2,
   = url_escape_loop url_escape_table utf8len_table f2 total v.
 Proof. exact (url_escape_fuel_enough url_escape_table utf8len_table real_url_tables_ok). Qed.
 Print Assumptions C01_url_escape_terminates.
+
+(* rendering a well-formed tree never panics, under every option combination (this covers e.g.
+   the heading-level index, every Segment.Value slice, the code-span type assertion) *)
+Theorem C01_render_total : forall c src t, wf_tree src t = true -> exists o, RenderHTML c src t = Ok o.
+Proof. exact RenderHTML_total. Qed.
+Print Assumptions C01_render_total.
